@@ -141,5 +141,23 @@ int fam_mul(const vh_args_t *a) {
     vh_mul_case(route, m, l, n, kA, kB, param, vh_randint(0, 1));
     VH_CASE_END
   }
+  if (strstr(a->extra, "nosweep")) return 0;
+  /* Strassen shape sweep: every combination of "exact multiple of the split unit" / "with a remainder strip" in
+   * each of the three dimensions, one and two levels of recursion (cutoff 64), for the plain and the accumulate
+   * route (and the squaring routes on the diagonal) */
+  static const int SD[] = {128, 130, 192, 200, 256, 260};
+  long sidx = 2000000;
+  for (int im = 0; im < 6; im++)
+    for (int il = 0; il < 6; il++)
+      for (int in = 0; in < 6; in++)
+        for (int acc = 0; acc < 2; acc++, sidx++) {
+          if (!a->tier && (int)((im + il + in + acc + a->seed) % 3) != 0) continue;
+          if (!VH_SHARD(a, sidx)) continue;
+          vh_case_seed(a, sidx);
+          VH_CASE(sidx)
+          int sq = (im == il && il == in) && vh_randint(0, 1);
+          vh_mul_case(sq ? (acc ? R_ADDSQR : R_SQR) : (acc ? R_ADDMUL : R_MUL), SD[im], SD[il], SD[in], 0, 0, 64, vh_randint(0, 1));
+          VH_CASE_END
+        }
   return 0;
 }
